@@ -1,5 +1,6 @@
 """C08 (Resize / modifiers) and C09 (Minimize / Invert): spec/Region.tla."""
 from fam_generic import Family, run_family, run_families
+from fam_cli import cli_family
 
 
 def RZ(segs, maxlen, slack, stride, mc=True):
@@ -49,5 +50,6 @@ MINIMIZE = Family(
 
 def run(prop, tier, seed, replay=None):
     if prop == "C08":
-        return run_families([RESIZE, LOCATOR], prop, tier, seed, replay)
+        # "gts extract <locator>": the extract command on every locator of the multi-site family
+        return run_families([RESIZE, LOCATOR, cli_family("cli-extract", ["extract"], quick_stride=2)], prop, tier, seed, replay)
     return run_family(MINIMIZE, prop, tier, seed, replay)
